@@ -346,8 +346,8 @@ theorem chain_gkeys (k : Org W → κ) (hEO : InvEO k) (hPC : InvPC k) (hSC : In
 /-- no member of the species has clones reserved (true of every organism entering an epoch: babies are created with a
     zero reservation) -/
 def AllZ (s : Species W) : Prop := ∀ x ∈ s.orgs, x.superChampOffspring = 0
-/-- the reservation of every member is at most the species' quota -/
-def ScLe (s : Species W) : Prop := ∀ x ∈ s.orgs, x.superChampOffspring ≤ s.expectedOffspring
+/-- the reservation of every member is non-negative and at most the species' quota -/
+def ScLe (s : Species W) : Prop := ∀ x ∈ s.orgs, 0 ≤ x.superChampOffspring ∧ x.superChampOffspring ≤ s.expectedOffspring
 
 omit [Scalar W] in
 theorem allZ_of_gkey {s s' : Species W}
@@ -397,8 +397,8 @@ theorem setTopOrg_mem (s : Species W) (f : Org W → Org W) (x : Org W) (hx : x 
 
 omit [Scalar W] in
 theorem scLe_setTop (s s' : Species W) (f : Org W → Org W) (ho : s'.orgs = (setTopOrg s f).orgs)
-    (hrest : ∀ x ∈ s.orgs, x.superChampOffspring ≤ s'.expectedOffspring)
-    (hf : ∀ t ∈ s.orgs, (f t).superChampOffspring ≤ s'.expectedOffspring) : ScLe s' := by
+    (hrest : ∀ x ∈ s.orgs, 0 ≤ x.superChampOffspring ∧ x.superChampOffspring ≤ s'.expectedOffspring)
+    (hf : ∀ t ∈ s.orgs, 0 ≤ (f t).superChampOffspring ∧ (f t).superChampOffspring ≤ s'.expectedOffspring) : ScLe s' := by
   intro x hx
   rw [ho] at hx
   rcases setTopOrg_mem s f x hx with h1 | ⟨t, ht, rfl⟩
@@ -451,8 +451,8 @@ theorem deltaCoding_scLe (sorted l : List (Species W)) (o : EpochOpts W) (h : de
       subst hs
       have z := hz s0 (by simp)
       refine scLe_setTop s0 _ _ rfl ?_ ?_
-      · intro x hx; rw [z x hx]; simp
-      · intro t _; simp
+      · intro x hx; rw [z x hx]; exact ⟨Int.le_refl 0, by simp only; omega⟩
+      · intro t _; exact ⟨by simp only; omega, by simp only; omega⟩
   · rename_i s1 s2 rest
     split at h
     · cases h
@@ -462,15 +462,15 @@ theorem deltaCoding_scLe (sorted l : List (Species W)) (o : EpochOpts W) (h : de
       rcases hs with rfl | rfl | ⟨s0, hs0, rfl⟩
       · have z := hz s1 (by simp)
         refine scLe_setTop s1 _ _ rfl ?_ ?_
-        · intro x hx; rw [z x hx]; simp only; omega
-        · intro t _; simp
+        · intro x hx; rw [z x hx]; exact ⟨Int.le_refl 0, by simp only; omega⟩
+        · intro t _; exact ⟨by simp only; omega, by simp only; omega⟩
       · have z := hz s2 (by simp)
         refine scLe_setTop s2 _ _ rfl ?_ ?_
-        · intro x hx; rw [z x hx]; simp only; omega
-        · intro t _; simp
+        · intro x hx; rw [z x hx]; exact ⟨Int.le_refl 0, by simp only; omega⟩
+        · intro t _; exact ⟨by simp only; omega, by simp only; omega⟩
       · have z := hz s0 (by simp [hs0])
         intro x hx
-        rw [z x hx]; simp
+        rw [z x hx]; exact ⟨Int.le_refl 0, Int.le_refl 0⟩
 
 theorem stealLoop_P0 (bs : Int) (l : List (Species W)) (stolen : Int)
     (h : ∀ s ∈ l, 0 < s.expectedOffspring ∧ AllZ s) : ∀ s ∈ (stealLoop bs l stolen).1, 0 < s.expectedOffspring ∧ AllZ s := by
@@ -513,8 +513,8 @@ theorem giveLoop_scLe (o : EpochOpts W) (blocks : List Int) (hb : ∀ b ∈ bloc
          ScLe ({ setTopOrg x (fun t => { t with superChampOffspring := b }) with expectedOffspring := x.expectedOffspring + b } : Species W)) := by
       intro b hb0
       refine ⟨by simp only; omega, scLe_setTop x _ _ rfl ?_ ?_⟩
-      · intro y hy; have := hx.2 y hy; simp only; omega
-      · intro t _; simp only; omega
+      · intro y hy; have := hx.2 y hy; exact ⟨this.1, by simp only; omega⟩
+      · intro t _; exact ⟨by simp only; omega, by simp only; omega⟩
     unfold giveLoop at h
     split at h
     · split at h
@@ -591,7 +591,7 @@ theorem giveBabies_scLe (sorted sorted' : List (Species W)) (o : EpochOpts W) (r
       rcases hb' with rfl | rfl | rfl <;> omega
     have h1 := giveLoop_scLe o _ hb _ _ _ _ _ _ _ hsn (fun s hs => by
       obtain ⟨q, z⟩ := hst s (List.mem_reverse.mp hs)
-      exact ⟨by omega, fun x hx => by rw [z x hx]; omega⟩) hgive
+      exact ⟨by omega, fun x hx => by rw [z x hx]; exact ⟨by omega, by omega⟩⟩) hgive
     split at h
     · rename_i hleft
       split at h
@@ -605,8 +605,8 @@ theorem giveBabies_scLe (sorted sorted' : List (Species W)) (o : EpochOpts W) (r
           rcases List.mem_cons.mp hx with rfl | h'
           · have hs := h1 s (by simp)
             refine scLe_setTop s _ _ rfl ?_ ?_
-            · intro y hy; have := hs.2 y hy; simp only; omega
-            · intro t ht; have := hs.2 t ht; simp only; omega
+            · intro y hy; have := hs.2 y hy; exact ⟨this.1, by simp only; omega⟩
+            · intro t ht; have := hs.2 t ht; exact ⟨by simp only; omega, by simp only; omega⟩
           · exact (h1 x (by simp [h'])).2
     · simp only [Except.ok.injEq, Prod.mk.injEq] at h
       obtain ⟨rfl, _⟩ := h
@@ -635,11 +635,11 @@ theorem redistribute_scLe (sorted1 : List (Species W)) (o : EpochOpts W) (e : In
       obtain ⟨⟨rfl, _⟩, _⟩ := h
       intro s hs x hx
       obtain ⟨q, z⟩ := hP0 s hs
-      rw [z x hx]; omega
+      rw [z x hx]; exact ⟨by omega, by omega⟩
 
 /-- **the reservation bound, derived from the preparation phase.**  If no organism enters the epoch with clones reserved
     (`superChampOffspring = 0`, true of every newborn) and species ids are unique, then after `prepareForReproduction`
-    the reservation of EVERY organism left is at most the quota of its species — whichever of delta coding, stolen
+    the reservation of EVERY organism left is non-negative and at most the quota of its species — whichever of delta coding, stolen
     babies or neither ran, for every scalar type, stream and option setting. -/
 theorem prepare_sc_le (o : EpochOpts W) (p p1 : Pop W) (ex : ExecState) (rs rs' : List Nat)
     (hnd : (p.species.map (·.id)).Nodup) (hz : ∀ s ∈ p.species, AllZ s)
